@@ -46,7 +46,7 @@ def cases(tier):
     axis_kinds = ['asc', 'nonuni', 'desc', 'descnonuni']
     for (a, b) in shapes:
         for lat_kind, lon_kind in itertools.product(axis_kinds, axis_kinds):
-            for bnds in ('none', 'var', 'coord', 'gapped'):
+            for bnds in ('none', 'var', 'coord', 'gapped', 'overlap'):
                 for names, coords_as in (('dim', 'coord'), ('other', 'coord'), ('other', 'var')):
                     if quick and (lat_kind, lon_kind) not in (('asc', 'asc'), ('desc', 'nonuni'), ('nonuni', 'descnonuni'), ('descnonuni', 'desc')):
                         continue
@@ -75,7 +75,18 @@ def cases(tier):
                 for coords_as in ('coord', 'var'):
                     out.append({'family': 'shoc_standard', 'nj': a, 'ni': b, 'geometry': geometry, 'dry': dry,
                                 'coords_as': coords_as})
-    meshes = ['M1', 'M4', 'M5', 'M7', 'M8'] if quick else ['M1', 'M2', 'M3', 'M4', 'M5', 'M6', 'M7', 'M8', 'M9']
+    # one grid per family above 2^16 cells (thorough: above 2^18): batch / offset arithmetic in bulk construction
+    out.append({'family': 'cf1d', 'ny': 260, 'nx': 255, 'bounds': 'var', 'lat_kind': 'asc', 'lon_kind': 'asc', 'names': 'dim',
+                'coords_as': 'coord', 'nt': 1, 'nk': 1})
+    out.append({'family': 'cf2d', 'ny': 258, 'nx': 256, 'geometry': 'skew', 'bounds': 'stored', 'holes': 'first', 'coords_as': 'coord',
+                'nt': 1, 'nk': 1})
+    out.append({'family': 'shoc_standard', 'nj': 257, 'ni': 256, 'geometry': 'rect', 'dry': 'corner', 'coords_as': 'coord', 'nt': 1, 'nk': 1})
+    if not quick:
+        out.append({'family': 'cf1d', 'ny': 540, 'nx': 500, 'bounds': 'none', 'lat_kind': 'desc', 'lon_kind': 'asc', 'names': 'other',
+                    'coords_as': 'coord', 'nt': 1, 'nk': 1})
+        out.append({'family': 'cf2d', 'ny': 520, 'nx': 510, 'geometry': 'rect', 'bounds': 'stored', 'holes': 'corner', 'coords_as': 'coord',
+                    'nt': 1, 'nk': 1})
+    meshes = ['M1', 'M4', 'M5', 'M7', 'M8', 'M10'] if quick else ['M1', 'M2', 'M3', 'M4', 'M5', 'M6', 'M7', 'M8', 'M9', 'M10']
     for mesh in meshes:
         for start_index, fill, transposed, coords_as, face_coords in itertools.product(
                 (0, 1), ('nan', 'fillattr'), (False, True), ('var', 'coord'), (False, True)):
@@ -86,6 +97,9 @@ def cases(tier):
                 out.append({**spec, 'io': 'reopen'})
                 if fill == 'fillattr':
                     out.append({**spec, 'io': 'raw'})
+        # MPAS style: one-based indexes, 0 marks "no node"
+        out.append({'family': 'ugrid', 'mesh': mesh, 'start_index': 1, 'fill': 'fillattr', 'fill_value': 0})
+        out.append({'family': 'ugrid', 'mesh': mesh, 'start_index': 1, 'fill': 'fillattr', 'fill_value': 0, 'transposed': True, 'io': 'raw'})
         bow = {'M4': 0, 'M7': 5, 'M5': 0, 'M8': 1}.get(mesh)
         if bow is not None:
             out.append({'family': 'ugrid', 'mesh': mesh, 'bowtie': bow, 'start_index': 1, 'fill': 'fillattr'})
